@@ -34,6 +34,14 @@ class Sub2(Base):
         LOG.append((type(self).__name__, dict(w=w, items=items, flag=flag), self))
 
 
+class NoW(Base):
+    """A subclass whose constructor does not take the parameter w."""
+
+    def __init__(self, v: int = 0):
+        self.v = v
+        LOG.append((type(self).__name__, dict(v=v), self))
+
+
 class Other:
     def __init__(self, q: int = 0):
         self.q = q
